@@ -106,6 +106,7 @@ structure Req where
   getHead : Bool            -- method in ('GET', 'HEAD')
   isHead : Bool
   proto11 : Bool            -- request.protocol >= (1, 1)
+  lenKnown : Bool           -- `file`: content_length is not None (false: serve_fileobj(BytesIO))
   baseStatus : Nat          -- `gen`: what the handler sets (200 = untouched); `file`: 200
   callSince : Bool          -- `gen`: does the handler call validate_since()
   etagsOn : Bool            -- tools.etags.on
@@ -146,7 +147,7 @@ def handler (r : Req) : Handled :=
   match r.kind with
   | .file =>
     match validateSince r.lastmod 200 r.getHead r.ius r.ims with
-    | .pass => .served (serveFileobj r.proto11 r.range r.content)
+    | .pass => .served (serveFileobj r.proto11 r.lenKnown r.range r.content)
     | v => .raised v
   | .gen =>
     if r.callSince then
@@ -171,7 +172,7 @@ def respond (r : Req) : Resp :=
   | .raised v =>
     -- tools.etags still runs (before_finalize after set_response) but only records the ETag:
     -- the status is 304 / 412, outside 2xx, and autotags needs status 200
-    finish r (conditionalResp v (if r.etagsOn then r.handlerEtag else r.handlerEtag))
+    finish r (conditionalResp v r.handlerEtag)
   | .served (.unsat total) =>
     -- HTTPError(416): clean_headers keeps Content-Range for 416 only; ETag dropped
     finish r ⟨416, some (none, total), none, none, .errorPage⟩
